@@ -247,6 +247,9 @@ def leaves(x):
 
 def oracle(r):
     bad = []
+    if r.get("outcome", {}).get("never_ended"):
+        return [("C15:never-ended", "run_application() was still running 15 s after everything in the application's "
+                 "script had happened (" + ("a CLI application whose run() " + ("returned" if any(o[0] == "RunEnds" for o in r["log"]) else "was never called") if r["cli"] else "a plain application") + ")")]
     normalise(r)
     log = r["log"]
     kinds = [o[0] for o in log]
@@ -354,6 +357,8 @@ def collect(ck, n):
             ck.broke("impl-runner", rr)
             continue
         for case, r in zip(c, rr["results"]):
+            if r.get("skipped"):
+                continue
             r["timeout"] = case["timeout"]
             r["fault"] = case["fault"]
             out.append(r)
@@ -413,6 +418,9 @@ def run(ck: Check):
                         ck.tie["translation"]["Gen_exitcode"]["reason"] +
                         " -- the model keeps the pinned numbers; the correspondence decides")
     results = collect(ck, ck.n(1280, 16000))
+    for r in [r for r in results if r["outcome"].get("never_ended")][:1]:
+        ck.fail_input("C15:never-ended", oracle(r)[0][1], replay_obj(r))
+    results = [r for r in results if not r["outcome"].get("never_ended")]
     terms = [case_term(r) for r in results]
     bad = ck.coq_eval("run", HEADER, terms, "run_case", "check_run", shard=250)
     sigs, n_fail = {}, 0
@@ -493,6 +501,8 @@ def replay(ck: Check, obj) -> int:
     bad = oracle(r)
     for b in bad:
         print("ORACLE:", b[0], "-", b[1])
+    if r["outcome"].get("never_ended"):
+        return 1
     mism = ck.coq_eval("replay", HEADER, [case_term(r)], "run_case", "check_run")
     print("model/implementation correspondence:", "DISAGREE" if mism else "agree")
     return 1 if bad or mism else 0
